@@ -491,12 +491,12 @@ CLAIMED = {
              "last one supplied; on the flat specification the chain is the union of the files' ordinary and wildcard records with "
              "duplicates removed and exactly one apex SOA, the last; a zone representing a flat zone answers as RFC 1034 4.3.2 on "
              "it (from C02's refinement theorem). Model tied to the Rust code by a differential stream that writes generated "
-             "configurations to disk and loads them with the real resolved::fs::load_zone_configuration.",
+             "configurations to disk and loads them with the real resolved::fs::load_zone_configuration. Composed with C11/C17 and C14 at the model level (Config/ConfigText.v: files hold TEXT, parse_file = read_to_string + Zone::deserialise / Hosts::deserialise): loading text never panics, returns None exactly when a directory cannot be listed or a file cannot be read or its parser returns Err (no premise: parsed hosts names are proved well formed), and for zone files rendering an abstract file (C11_parse_denotes) and hosts files rendering a syntax tree (C14_hosts_parse_denotes) the loaded zone of every apex represents the flat union (last SOA wins, hosts last-writer-wins in the root zone, merged last) of the files' DENOTATIONS (C12_load_text_denotes / _records).",
         note="The link from the record tree to the flat merge (C12_zone_is_chain_of_files) is closed with "
              "Zone/ZoneMergeProofs.v (zone_merge_repr, under the tree invariant 'unique child labels', which every zone built by "
              "insertion has); the earlier premise-carrying form is kept as C12_zone_is_chain_of_files_partial. "
              "The stream's oracle also checks the composed statement (dump = union, one SOA, answers from the "
-             "union) on every generated configuration. Files are already-parsed data in the model (text <-> data is C11/C14); the "
+             "union) on every generated configuration. Files are already-parsed data in the base model; the text level (Config/ConfigText.v) composes the C11/C14 parser MODELS and is proof only -- the stream reaches the real parsers through the real loader; the "
              "file system is assumed not to change during one load; symlinks other than dangling ones and a file used in both "
              "roles are outside the generated inputs.",
         design="5/C12", technique="Coq proof over executable model + model/impl correspondence (extraction)"),
@@ -509,7 +509,7 @@ CLAIMED = {
              "histories through the real load_zone_configuration, and runs of the REAL resolved binary (release build, "
              "authoritative-only, -Z/-A directories) with edit sequences, SIGUSR1, the 'done - success/failure' log line, and UDP "
              "queries before, during (a thread querying continuously) and after every reload, compared with the model's state "
-             "machine; version-stamped records and alias chains across files make a mixed reply match neither configuration. An overlapping-reload scenario (two edits + SIGUSR1, the second during the first reload of a 250 000-line hosts file) checks that the last edit wins.",
+             "machine; version-stamped records and alias chains across files make a mixed reply match neither configuration. An overlapping-reload scenario (two edits + SIGUSR1, the second during the first reload of a 250 000-line hosts file) checks that the last edit wins. The same state machine over TEXT file systems (C19_reload_text_all_or_nothing, C19_text_query_sees_one_config): the previous state stays exactly when a directory cannot be listed, a file cannot be read or a parser (the C11/C14 models) returns an error on a file's text; otherwise the state is the complete load of those texts.",
         note="That tokio's RwLock serialises the writer against in-flight readers (the atomicity of the swap under real scheduling) "
              "is outside the model: reloads and queries are atomic steps of the model by construction; it is observed on the real "
              "binary only (replies during a reload are exactly old or exactly new, never old after new). load is C12's model.",
@@ -530,7 +530,7 @@ CLAIMED = {
              "proved to serialise for every reply handle_raw_message builds (fallback_encodes); a witness shows the configuration of the "
              "fixed finding unserialisable-reply-silence answered with SERVFAIL. Pure part proved; model tied to the code by (a) a differential stream through the Rust harness for the framing "
              "functions and make_response, (b) the real release binary driven over loopback UDP/TCP in authoritative-only and "
-             "recursive mode, every reply compared with the extracted model's.",
+             "recursive mode, every reply compared with the extracted model's. Composed with the local resolver in authoritative-only mode (Server/ServerLocal.v, ties C09 to C01/C02): the resolver is never asked to recurse, RA = 0 and the reply is a function of the zones and the cache read function (not even of that inside authoritative zones); a standard query with one known question about a name an authoritative zone owns gets AA, NOERROR, exactly that zone's records for the name and type and its SOA in the authority section, or AA, NXDOMAIN, no answer and the SOA; RCODE 3 is sent, for any input, only when the authoritative zone selected for the question name returned NameError.",
         note="NOT proved, only observed on the real binary by every run: 'does not crash and keeps serving' (liveness probe after every "
              "batch, process still running at the end), tokio scheduling, socket errors. Known finding (reported, not failing): "
              "referral-in-answer-with-aa. Fixed finding (a recurrence fails the check): unserialisable-reply-silence (35946be); its UDP "
